@@ -30,7 +30,8 @@ func H_gather() {
 	var values []*wire.Value
 	var fields []*wire.Field
 	var bindings []*wire.IfaceBinding
-	var nested []*wire.Provider
+	var nested, nested2 []*wire.Provider
+	nprov := 0
 	for k, kind := range kinds {
 		switch kind {
 		case 1: // provider function
@@ -44,11 +45,15 @@ func H_gather() {
 				dep[k] = append(dep[k], a)
 				p.Args = append(p.Args, wire.ProviderInput{Type: wire.VerifType(a)})
 			}
-			if k%2 == 1 {
+			switch nprov % 3 {
+			case 1:
 				nested = append(nested, p)
-			} else {
+			case 2:
+				nested2 = append(nested2, p)
+			default:
 				providers = append(providers, p)
 			}
+			nprov++
 		case 3: // field
 			a := vInt(fmt.Sprintf("parent%d", k), k+1, N+M-1)
 			dep[k] = []int{a}
@@ -57,14 +62,25 @@ func H_gather() {
 			values = append(values, &wire.Value{Out: wire.VerifType(k)})
 		}
 	}
+	// Outer includes two inline (unnamed) sets of the same package; each of them includes a named set
 	var imports []*wire.ProviderSet
-	if len(nested) > 0 {
-		in, errs := wire.VerifNewSet("example.com/other", "Inner", nested, nil, nil, nil, nil)
+	wantImports := 0
+	for i, ps := range [][]*wire.Provider{nested, nested2} {
+		if len(ps) == 0 {
+			continue
+		}
+		named, errs := wire.VerifNewSet("example.com/other", fmt.Sprintf("Inner%d", i), ps, nil, nil, nil, nil)
 		vA("C10", len(errs) == 0, "inner set accepted")
 		if len(errs) > 0 {
 			return
 		}
-		imports = append(imports, in)
+		inline, errs := wire.VerifNewSet("example.com/h", "", nil, nil, nil, nil, []*wire.ProviderSet{named})
+		vA("C10", len(errs) == 0, "inline set accepted")
+		if len(errs) > 0 {
+			return
+		}
+		imports = append(imports, inline)
+		wantImports++
 	}
 	set, errs := wire.VerifNewSet("example.com/h", "Outer", providers, values, fields, bindings, imports)
 	vA("C10", len(errs) == 0, "outer set accepted")
@@ -112,11 +128,15 @@ func H_gather() {
 	for k := 0; k < N; k++ {
 		vA("C19", seen[k] == 1, "every type the set can provide is listed in exactly one group")
 	}
-	if len(nested) > 0 {
-		_, ok := imps[formatProviderSetName("example.com/other", "Inner")]
-		vA("C19", ok && len(imps) == 1, "the named sets a set includes are listed")
-	} else {
-		vA("C19", len(imps) == 0, "no imports listed for a flat set")
+	vA("C19", len(imps) == wantImports, "exactly the named sets a set includes (also through inline sets) are listed")
+	for i, ps := range [][]*wire.Provider{nested, nested2} {
+		if len(ps) > 0 {
+			_, ok := imps[formatProviderSetName("example.com/other", fmt.Sprintf("Inner%d", i))]
+			vA("C19", ok, "a named set reached through an inline set is listed")
+		}
+	}
+	if wantImports == 2 {
+		vCover("two-inline-sets")
 	}
 	if len(groups) >= 2 {
 		vCover("groups>=2")
